@@ -143,6 +143,17 @@ func runConc(r *Runner) {
 			r.C.Sched.Choices = []int{}
 		}
 	}
+	if sb.CapHit {
+		r.Infra = "step cap hit"
+		return
+	}
+	if sb.Deadlock != "" {
+		// the parked tasks never handed control back: nothing orders their writes before this goroutine's reads, so
+		// their per-task state stays untouched (the race detector would rightly call reading it a race)
+		r.judging = concJudged[r.C.Prop] == "any" || r.C.Prop == "C08" || r.C.Prop == "C06" || r.C.Prop == "C05"
+		r.fail("deadlock", "", "deadlock among concurrent clients: %s", sb.Deadlock)
+		return
+	}
 	// merge per-task results
 	for _, ts := range states {
 		for k, v := range ts.cnt {
